@@ -57,15 +57,26 @@ def build_lean(modules):
     return rc == 0, out[-6000:]
 
 
+def prop_files(prop):
+    """Props/Cxx.lean plus the topic files Props/Cxx_<Topic>.lean (same namespace Nomt.Cxx)"""
+    d = os.path.join(LEAN, "NomtModel", "Props")
+    return [f"{prop}.lean"] + sorted(f for f in os.listdir(d) if f.startswith(prop + "_") and f.endswith(".lean"))
+
+
+def prop_modules(prop):
+    return ["NomtModel.Props." + f[:-5] for f in prop_files(prop)]
+
+
 def theorem_names(prop):
-    path = os.path.join(LEAN, "NomtModel", "Props", f"{prop}.lean")
     names = []
     ns = f"Nomt.{prop}"
-    if os.path.exists(path):
-        for line in open(path):
-            m = re.match(r"^theorem\s+([A-Za-z0-9_'.]+)", line)
-            if m:
-                names.append(f"{ns}.{m.group(1)}")
+    for fn in prop_files(prop):
+        path = os.path.join(LEAN, "NomtModel", "Props", fn)
+        if os.path.exists(path):
+            for line in open(path):
+                m = re.match(r"^theorem\s+([A-Za-z0-9_'.]+)", line)
+                if m:
+                    names.append(f"{ns}.{m.group(1)}")
     return names
 
 
@@ -94,7 +105,8 @@ def audit(prop, thorough=False):
     os.makedirs(d, exist_ok=True)
     f = os.path.join(d, f"Audit{prop}.lean")
     with open(f, "w") as fh:
-        fh.write(f"import NomtModel.Props.{prop}\n")
+        for mod in prop_modules(prop):
+            fh.write(f"import {mod}\n")
         for n in names:
             fh.write(f"#print axioms {n}\n")
     rc, out = sh(["lake", "env", "lean", f], cwd=LEAN, timeout=1200)
@@ -112,10 +124,11 @@ def audit(prop, thorough=False):
             if extra:
                 res["bad"].append(f"{n}: inadmissible axioms {extra}")
     if thorough:
-        rc, out = sh(["lake", "env", "leanchecker", f"NomtModel.Props.{prop}"], cwd=LEAN, timeout=3000)
-        res["leanchecker_rc"] = rc
-        if rc != 0:
-            res["bad"].append("leanchecker rejected NomtModel.Props." + prop + ": " + out[-300:])
+        for mod in prop_modules(prop):
+            rc, out = sh(["lake", "env", "leanchecker", mod], cwd=LEAN, timeout=3000)
+            res["leanchecker_rc"] = max(rc, res.get("leanchecker_rc", 0))
+            if rc != 0:
+                res["bad"].append("leanchecker rejected " + mod + ": " + out[-300:])
     return res
 
 
@@ -281,7 +294,7 @@ def main():
         # ---------------- build ----------------
         ok_h, log_h = build_harness()
         ok_c, log_c = gen_constants()
-        mods = [f"NomtModel.Props.{prop}"] + cfg.get("extra_modules", [])
+        mods = prop_modules(prop) + cfg.get("extra_modules", [])
         ok_l, log_l = build_lean(mods)
         P_fail = []
         if not ok_c:
